@@ -25,7 +25,7 @@ def run(ctx):
     ctx.assumptions += ["byte strings reachable by structure-aware mutation of shipped decks and generated result files (quantifier of the property)"]
     ctx.assumptions += ["deck-text lexer theorems: C locale (std::toupper/std::isdigit/std::isalnum act on ASCII only; glibc accepts negative "
                         "char values - no sanitizer or valgrind report, see design.d/C20.md)"]
-    ctx.stage_translate(["eclio", "rawconsts"])
+    ctx.stage_translate(["eclio", "rawconsts", "esmryscan"])
     ok_main = ctx.stage_build_opm()
     ok, out = vlib.build_opm(hard=True)
     if not ok:
